@@ -1683,19 +1683,19 @@ operators (`indexWhere`, `any`, `all`, `toDict`, `groupBy`, `aggregate`...) appl
 
 theorem run_select_lazy (opts : Opts) (hd : opts.iterableDicts = false) (f : Lam) (hm : f.seqMethods = false) (s : LSeq) :
     runOp opts (.select f) (.lazy s) = .ok (.lazy (LSeq.mapM f.eval (limitLazy opts s).items (limitLazy opts s).err)) := by
-  simp [runOp, runOp1, Op.linear, Op.collArgs, Op.usesPlus, Op.lamSeqMethods, hm, Obj.it, Obj.iterable?, hd, bind, Except.bind, pure, Except.pure]
+  simp [runOp, runOpCore, noSetsErr, Op.needsSets, runOp1, Op.linear, Op.collArgs, Op.usesPlus, Op.lamSeqMethods, hm, Obj.it, Obj.iterable?, hd, bind, Except.bind, pure, Except.pure]
 
 theorem run_where_lazy (opts : Opts) (hd : opts.iterableDicts = false) (p : Lam) (hm : p.seqMethods = false) (s : LSeq) :
     runOp opts (.where_ p) (.lazy s) = .ok (.lazy (LSeq.filterM p.test (limitLazy opts s).items (limitLazy opts s).err)) := by
-  simp [runOp, runOp1, Op.linear, Op.collArgs, Op.usesPlus, Op.lamSeqMethods, hm, Obj.it, Obj.iterable?, hd, bind, Except.bind, pure, Except.pure]
+  simp [runOp, runOpCore, noSetsErr, Op.needsSets, runOp1, Op.linear, Op.collArgs, Op.usesPlus, Op.lamSeqMethods, hm, Obj.it, Obj.iterable?, hd, bind, Except.bind, pure, Except.pure]
 
 theorem run_takeWhile_lazy (opts : Opts) (hd : opts.iterableDicts = false) (p : Lam) (hm : p.seqMethods = false) (s : LSeq) :
     runOp opts (.takeWhile p) (.lazy s) = .ok (.lazy (LSeq.takeWhileM p.test (limitLazy opts s).items (limitLazy opts s).err)) := by
-  simp [runOp, runOp1, Op.linear, Op.collArgs, Op.usesPlus, Op.lamSeqMethods, hm, Obj.it, Obj.iterable?, hd, bind, Except.bind, pure, Except.pure]
+  simp [runOp, runOpCore, noSetsErr, Op.needsSets, runOp1, Op.linear, Op.collArgs, Op.usesPlus, Op.lamSeqMethods, hm, Obj.it, Obj.iterable?, hd, bind, Except.bind, pure, Except.pure]
 
 theorem run_skipWhile_lazy (opts : Opts) (hd : opts.iterableDicts = false) (p : Lam) (hm : p.seqMethods = false) (s : LSeq) :
     runOp opts (.skipWhile p) (.lazy s) = .ok (.lazy (LSeq.dropWhileM p.test (limitLazy opts s).items (limitLazy opts s).err)) := by
-  simp [runOp, runOp1, Op.linear, Op.collArgs, Op.usesPlus, Op.lamSeqMethods, hm, Obj.it, Obj.iterable?, hd, bind, Except.bind, pure, Except.pure]
+  simp [runOp, runOpCore, noSetsErr, Op.needsSets, runOp1, Op.linear, Op.collArgs, Op.usesPlus, Op.lamSeqMethods, hm, Obj.it, Obj.iterable?, hd, bind, Except.bind, pure, Except.pure]
 
 /-- a consumer that stops before the failing element never sees the exception: `select(f).take(k)` is the
     first `k` results when the first failing application is at a position `>= k` -/
@@ -1731,7 +1731,7 @@ theorem run_indexWhere_eager (opts : Opts) (hd : opts.iterableDicts = false) (hl
     (hpre : ∀ y ∈ pre, p.test y = .ok false) (hx : p.test x = .error er) :
     runOp opts (.indexWhere p) (.lazy ⟨pre ++ x :: post, none⟩) = .error er := by
   have := findM_error_position p.test 0 pre post x er none hpre hx
-  cases er <;> simp [runOp, runOp1, Op.linear, Op.collArgs, Op.usesPlus, Obj.it, Obj.iterable?, limitLazy, hd, hl, bind, Except.bind, this]
+  cases er <;> simp [runOp, runOpCore, noSetsErr, Op.needsSets, runOp1, Op.linear, Op.collArgs, Op.usesPlus, Obj.it, Obj.iterable?, limitLazy, hd, hl, bind, Except.bind, this]
 
 /-- non-vacuity of the hypotheses of `select_map` / `take_before_error` / `take_past_error`: `$.first()` over
     `[[1], [], [3]]` succeeds on the prefix `[[1]]` and raises StopIteration on `[]` -/
@@ -1780,7 +1780,7 @@ theorem run_where (opts : Opts) (hd : opts.iterableDicts = false) (hl : opts.lim
     intro x hx
     obtain ⟨v, hv⟩ := h x hx
     simp [Lam.test, Lam.pred, Lam.fn, hv, bind, Except.bind, pure, Except.pure]
-  simp [runOp, runOp1, Op.linear, Op.collArgs, Op.usesPlus, Obj.it, Obj.iterable?, limitLazy, hd, hl, bind, Except.bind, pure, Except.pure, this]
+  simp [runOp, runOpCore, noSetsErr, Op.needsSets, runOp1, Op.linear, Op.collArgs, Op.usesPlus, Obj.it, Obj.iterable?, limitLazy, hd, hl, bind, Except.bind, pure, Except.pure, this]
 
 theorem run_select (opts : Opts) (hd : opts.iterableDicts = false) (hl : opts.limit = none) (f : Lam) (xs : VL) (h : ∀ x ∈ xs, ∃ v, f.eval x = .ok v) :
     runOp opts (.select f) (.lazy ⟨xs, none⟩) = .ok (.lazy ⟨select f.fn xs, none⟩) := by
@@ -1789,21 +1789,21 @@ theorem run_select (opts : Opts) (hd : opts.iterableDicts = false) (hl : opts.li
     intro x hx
     obtain ⟨v, hv⟩ := h x hx
     simp [Lam.fn, hv]
-  simp [runOp, runOp1, Op.linear, Op.collArgs, Op.usesPlus, Obj.it, Obj.iterable?, limitLazy, hd, hl, bind, Except.bind, pure, Except.pure, this]
+  simp [runOp, runOpCore, noSetsErr, Op.needsSets, runOp1, Op.linear, Op.collArgs, Op.usesPlus, Obj.it, Obj.iterable?, limitLazy, hd, hl, bind, Except.bind, pure, Except.pure, this]
 
 theorem run_take (opts : Opts) (hd : opts.iterableDicts = false) (hl : opts.limit = none) (n : Nat) (xs : VL) :
     runOp opts (.take n) (.lazy ⟨xs, none⟩) = .ok (.lazy ⟨take n xs, none⟩) := by
   have : ¬ ((n : Int) < 0) := by omega
-  simp [runOp, runOp1, Op.linear, Op.collArgs, Op.usesPlus, Obj.it, Obj.iterable?, limitLazy, hd, hl, bind, Except.bind, pure, Except.pure, LSeq.take, take, this]
+  simp [runOp, runOpCore, noSetsErr, Op.needsSets, runOp1, Op.linear, Op.collArgs, Op.usesPlus, Obj.it, Obj.iterable?, limitLazy, hd, hl, bind, Except.bind, pure, Except.pure, LSeq.take, take, this]
 
 theorem run_skip (opts : Opts) (hd : opts.iterableDicts = false) (hl : opts.limit = none) (n : Nat) (xs : VL) :
     runOp opts (.skip n) (.lazy ⟨xs, none⟩) = .ok (.lazy ⟨skip n xs, none⟩) := by
   have : ¬ ((n : Int) < 0) := by omega
-  simp [runOp, runOp1, Op.linear, Op.collArgs, Op.usesPlus, Obj.it, Obj.iterable?, limitLazy, hd, hl, bind, Except.bind, pure, Except.pure, LSeq.drop, skip, this]
+  simp [runOp, runOpCore, noSetsErr, Op.needsSets, runOp1, Op.linear, Op.collArgs, Op.usesPlus, Obj.it, Obj.iterable?, limitLazy, hd, hl, bind, Except.bind, pure, Except.pure, LSeq.drop, skip, this]
 
 theorem run_reverse (opts : Opts) (hd : opts.iterableDicts = false) (hl : opts.limit = none) (xs : VL) :
     runOp opts .reverse (.lazy ⟨xs, none⟩) = .ok (.lazy ⟨reverse xs, none⟩) := by
-  simp [runOp, runOp1, Op.linear, Op.collArgs, Op.usesPlus, Obj.it, Obj.iterable?, limitLazy, hd, hl, bind, Except.bind, pure, Except.pure, LSeq.toList, lazyOk, reverse]
+  simp [runOp, runOpCore, noSetsErr, Op.needsSets, runOp1, Op.linear, Op.collArgs, Op.usesPlus, Obj.it, Obj.iterable?, limitLazy, hd, hl, bind, Except.bind, pure, Except.pure, LSeq.toList, lazyOk, reverse]
 
 theorem run_distinct (opts : Opts) (hd : opts.iterableDicts = false) (hl : opts.limit = none) (xs : VL) (h : ∀ x ∈ xs, hashable x = true) :
     runOp opts (.distinct none) (.lazy ⟨xs, none⟩) = .ok (.lazy ⟨distinct xs, none⟩) := by
@@ -1811,7 +1811,7 @@ theorem run_distinct (opts : Opts) (hd : opts.iterableDicts = false) (hl : opts.
     distinctM_pure _ id [] xs none
       (by intro x _; simp [optLam, Lam.eval, Lam.passThrough, Lam.evalR, LRes.force, bind, Except.bind]) (by simpa using h)
   have hl' : (Obj.lazy ⟨xs, none⟩).carriesLazy = false := by simpa [Obj.carriesLazy] using noLazyL_of_all_hashable xs h
-  simp [runOp, runOp1, hl', Op.collArgs, Op.usesPlus, Obj.it, Obj.iterable?, limitLazy, hd, hl, bind, Except.bind, pure, Except.pure, this, distinct, distinctBy]
+  simp [runOp, runOpCore, noSetsErr, Op.needsSets, runOp1, hl', Op.collArgs, Op.usesPlus, Obj.it, Obj.iterable?, limitLazy, hd, hl, bind, Except.bind, pure, Except.pure, this, distinct, distinctBy]
 
 /-- iterating the result of `orderBy` yields the pure stable sort -/
 theorem run_orderBy_iter (opts : Opts) (hd : opts.iterableDicts = false) (hl : opts.limit = none)
@@ -1819,6 +1819,6 @@ theorem run_orderBy_iter (opts : Opts) (hd : opts.iterableDicts = false) (hl : o
     (runOp opts (.orderBy k) (.lazy ⟨xs, none⟩) >>= fun o => o.it opts)
       = .ok ⟨orderBy ltT gtT k.fn xs, none⟩ := by
   have hs := sortRun_pure [(k, true)] xs h
-  simp [runOp, runOp1, Op.linear, Op.collArgs, Op.usesPlus, Obj.it, Obj.iterable?, limitLazy, hd, hl, bind, Except.bind, pure, Except.pure, hs, orderBy, fieldsFn]
+  simp [runOp, runOpCore, noSetsErr, Op.needsSets, runOp1, Op.linear, Op.collArgs, Op.usesPlus, Obj.it, Obj.iterable?, limitLazy, hd, hl, bind, Except.bind, pure, Except.pure, hs, orderBy, fieldsFn]
 
 end Yaql.Props.C13
